@@ -45,6 +45,10 @@ def main():
     res = {"verified_at": time.strftime("%Y-%m-%dT%H:%M:%SZ", time.gmtime())}
     # make sure the tree carries exactly the patch
     sh("git checkout -- src", cwd=wt)
+    # bring the scratch worktree to /repo's current HEAD (fix: and hook commits made since the seed was written)
+    rc, head = sh("git -C /repo rev-parse HEAD")
+    sh("git checkout -q --detach %s" % head.strip(), cwd=wt)
+    res["base_commit"] = head.strip()[:7]
     rc, out = sh("git apply seed/patch.diff", cwd=wt)
     if rc != 0:
         print("patch does not apply:", out)
